@@ -10,7 +10,9 @@ Rg(a, b, u) == [t |-> "range", lo |-> a, hi |-> b, txt |-> "", unit |-> u]
 Tx(s, u) == [t |-> "text", lo |-> 0, hi |-> 0, txt |-> s, unit |-> u]
 Pool == { [name |-> "salt", amount |-> Num(4, "g")], [name |-> "salt", amount |-> Num(6, "g")], [name |-> "salt", amount |-> Num(2, "tsp")],
           [name |-> "salt", amount |-> Rg(4, 8, "g")], [name |-> "salt", amount |-> Rg(8, 16, "g")], [name |-> "salt", amount |-> Tx("pinch", "")],
-          [name |-> "salt", amount |-> NoAmount], [name |-> "oil", amount |-> Num(4, "g")], [name |-> "oil", amount |-> Num(10, "")] }
+          [name |-> "salt", amount |-> NoAmount], [name |-> "oil", amount |-> Num(4, "g")], [name |-> "oil", amount |-> Num(10, "")],
+          \* a unit that differs from another one only in letter case is another unit
+          [name |-> "salt", amount |-> Num(2, "G")] }
 Init == list = <<>> /\ sel = <<>> /\ stage = "list"
 AddItem == stage = "list" /\ Len(list) < MaxLen /\ \E i \in Pool : list' = Append(list, i) /\ UNCHANGED <<sel, stage>>
 StartSel == stage = "list" /\ list # <<>> /\ stage' = "sel" /\ UNCHANGED <<list, sel>>
